@@ -1,5 +1,542 @@
+/-
+  C10 — format never changes what a file means or says.
+
+  Model: `Crs.Format.processLine` / `formatLines` / `formatFile` against what the compiler reads in a line
+  (`Crs.Parser.parseLines` dispatch, `Crs.Asm.runLines` dispatch).
+
+  Proved here, for every line and every indentation level:
+  * the compiler's recognisers give the same answer (same directive, same arguments, or the same plain text)
+    on the formatted line as on the original (`C10_view_preserved`), so the parser's step is the same
+    (`C10_parser_step_same`); block start lines stay block starts of the same processor with the same argument
+    (`C10_block_start_same`);
+  * formatting is line by line: no line is dropped, duplicated or reordered (`C10_lines_pointwise`,
+    `C10_file_lines`).
+  NOT proved: the lift of the per-line statements through include expansion and the assembler to
+  `generate (format b) = generate b` — checked by the oracle (generate before/after on the real binary).
+-/
 import Crs.Format
-import Crs.Parser
+import Crs.Assemble
+import CrsProofs.FormatFile
+import CrsProps.C03
+import CrsProps.C09
 namespace Crs.Props
-theorem C10_placeholder : True := trivial
+open Crs Crs.Format Crs.Pat Crs.Parser
+
+/-! ### what the parser reads in a (left-trimmed) line -/
+
+/-- the answers of all recognisers `parseLines` consults, in its own order -/
+structure View where
+  blank : Bool
+  comment : Bool
+  definition : Option (Bytes × Bytes)
+  incl : Option (Bytes × Bytes)
+  inclExcept : Option (Bytes × Bytes × Bytes)
+  flags : Option Bytes
+  pfx : Option Bytes
+  sfx : Option Bytes
+  deriving DecidableEq
+
+def view (t : Bytes) : View :=
+  { blank := isBlank t, comment := comment? t, definition := definition? t, incl := include? t,
+    inclExcept := includeExcept? t, flags := flags? t, pfx := prefix? t, sfx := suffix? t }
+
+/-- no recogniser fires: the line is handed to the assembler as text -/
+def View.isText (v : View) : Bool :=
+  !v.blank && !v.comment && v.definition.isNone && v.incl.isNone && v.inclExcept.isNone && v.flags.isNone && v.pfx.isNone && v.sfx.isNone
+
+/-- the parser's step depends on the line only through its view, and through its text when no recogniser fires -/
+theorem parseLines_congr (fs : Fs) (o1 o2 : Ord) (fuel : Nat) (st : PState) (l1 l2 : Bytes) (rest : List Bytes)
+    (hv : view (trimLeftSpTab l1) = view (trimLeftSpTab l2))
+    (ht : (view (trimLeftSpTab l1)).isText = true → trimLeftSpTab l1 = trimLeftSpTab l2) :
+    parseLines fs o1 o2 fuel st (l1 :: rest) = parseLines fs o1 o2 fuel st (l2 :: rest) := by
+  simp only [view, View.mk.injEq] at hv
+  obtain ⟨h1, h2, h3, h4, h5, h6, h7, h8⟩ := hv
+  simp only [parseLines]
+  rw [h1, h2, h3, h4, h5, h6, h7, h8]
+  by_cases hb : isBlank (trimLeftSpTab l2) = true
+  · simp only [hb, if_true]
+  by_cases hc : comment? (trimLeftSpTab l2) = true
+  · simp only [hb, hc, if_true, Bool.false_eq_true, if_false]
+  simp only [hb, hc, Bool.false_eq_true, if_false]
+  cases hd : definition? (trimLeftSpTab l2) with
+  | some p => rfl
+  | none =>
+  cases hi : include? (trimLeftSpTab l2) with
+  | some p => rfl
+  | none =>
+  cases hx : includeExcept? (trimLeftSpTab l2) with
+  | some p => rfl
+  | none =>
+  cases hf : flags? (trimLeftSpTab l2) with
+  | some p => rfl
+  | none =>
+  cases hp : prefix? (trimLeftSpTab l2) with
+  | some p => rfl
+  | none =>
+  cases hs : suffix? (trimLeftSpTab l2) with
+  | some p => rfl
+  | none =>
+    simp only
+    have : trimLeftSpTab l1 = trimLeftSpTab l2 := by
+      apply ht
+      simp only [view, View.isText, h1, h2, h3, h4, h5, h6, h7, h8, hb, hc, hd, hi, hx, hf, hp, hs]
+      rfl
+    rw [this]
+
+/-! ### at most one recogniser fires (C03), so whichever the formatter found is the one the parser finds -/
+
+theorem only_definition (t : Bytes) (p : Bytes × Bytes) (h : definition? t = some p) :
+    comment? t = false ∧ include? t = none ∧ includeExcept? t = none ∧ flags? t = none ∧ prefix? t = none ∧ suffix? t = none := by
+  have := C03_classification_unambiguous t
+  unfold claims at this
+  rw [h] at this
+  revert this
+  cases comment? t <;> cases include? t <;> cases includeExcept? t <;> cases flags? t <;> cases prefix? t <;> cases suffix? t <;> simp
+
+theorem only_include (t : Bytes) (p : Bytes × Bytes) (h : include? t = some p) :
+    comment? t = false ∧ definition? t = none ∧ includeExcept? t = none ∧ flags? t = none ∧ prefix? t = none ∧ suffix? t = none := by
+  have := C03_classification_unambiguous t
+  unfold claims at this
+  rw [h] at this
+  revert this
+  cases comment? t <;> cases definition? t <;> cases includeExcept? t <;> cases flags? t <;> cases prefix? t <;> cases suffix? t <;> simp
+
+theorem only_includeExcept (t : Bytes) (p : Bytes × Bytes × Bytes) (h : includeExcept? t = some p) :
+    comment? t = false ∧ definition? t = none ∧ include? t = none ∧ flags? t = none ∧ prefix? t = none ∧ suffix? t = none := by
+  have := C03_classification_unambiguous t
+  unfold claims at this
+  rw [h] at this
+  revert this
+  cases comment? t <;> cases definition? t <;> cases include? t <;> cases flags? t <;> cases prefix? t <;> cases suffix? t <;> simp
+
+theorem only_flags (t : Bytes) (p : Bytes) (h : flags? t = some p) :
+    comment? t = false ∧ definition? t = none ∧ include? t = none ∧ includeExcept? t = none ∧ prefix? t = none ∧ suffix? t = none := by
+  have := C03_classification_unambiguous t
+  unfold claims at this
+  rw [h] at this
+  revert this
+  cases comment? t <;> cases definition? t <;> cases include? t <;> cases includeExcept? t <;> cases prefix? t <;> cases suffix? t <;> simp
+
+theorem only_prefix (t : Bytes) (p : Bytes) (h : prefix? t = some p) :
+    comment? t = false ∧ definition? t = none ∧ include? t = none ∧ includeExcept? t = none ∧ flags? t = none ∧ suffix? t = none := by
+  have := C03_classification_unambiguous t
+  unfold claims at this
+  rw [h] at this
+  revert this
+  cases comment? t <;> cases definition? t <;> cases include? t <;> cases includeExcept? t <;> cases flags? t <;> cases suffix? t <;> simp
+
+theorem only_suffix (t : Bytes) (p : Bytes) (h : suffix? t = some p) :
+    comment? t = false ∧ definition? t = none ∧ include? t = none ∧ includeExcept? t = none ∧ flags? t = none ∧ prefix? t = none := by
+  have := C03_classification_unambiguous t
+  unfold claims at this
+  rw [h] at this
+  revert this
+  cases comment? t <;> cases definition? t <;> cases include? t <;> cases includeExcept? t <;> cases flags? t <;> cases prefix? t <;> simp
+
+theorem definition?_hash (l : Bytes) (p : Bytes × Bytes) (h : definition? l = some p) : ∃ t, l = '#' :: t := by
+  unfold definition? at h
+  split at h
+  · simp at h
+  · rename_i r hr; exact starts_hash_of_strip _ l r hr
+
+theorem valueLine?_hash (ch : Char) (l v : Bytes) (h : valueLine? ch l = some v) : ∃ t, l = '#' :: t := by
+  unfold valueLine? at h
+  split at h
+  · simp at h
+  · rename_i r hr; exact starts_hash_of_strip _ l r hr
+
+/-- two lines on which the same recogniser fires with the same arguments have the same view -/
+theorem view_eq_of_definition (a b : Bytes) (p : Bytes × Bytes) (ha : definition? a = some p) (hb : definition? b = some p) :
+    view a = view b ∧ (view a).isText = false := by
+  obtain ⟨ta, rfl⟩ := definition?_hash a p ha
+  obtain ⟨tb, rfl⟩ := definition?_hash b p hb
+  obtain ⟨a1, a2, a3, a4, a5, a6⟩ := only_definition _ p ha
+  obtain ⟨b1, b2, b3, b4, b5, b6⟩ := only_definition _ p hb
+  simp [view, View.isText, isBlank_hash, ha, hb, a1, a2, a3, a4, a5, a6, b1, b2, b3, b4, b5, b6]
+
+theorem view_eq_of_include (a b : Bytes) (p : Bytes × Bytes) (ha : include? a = some p) (hb : include? b = some p) :
+    view a = view b ∧ (view a).isText = false := by
+  obtain ⟨ta, rfl⟩ := include?_hash a p ha
+  obtain ⟨tb, rfl⟩ := include?_hash b p hb
+  obtain ⟨a1, a2, a3, a4, a5, a6⟩ := only_include _ p ha
+  obtain ⟨b1, b2, b3, b4, b5, b6⟩ := only_include _ p hb
+  simp [view, View.isText, isBlank_hash, ha, hb, a1, a2, a3, a4, a5, a6, b1, b2, b3, b4, b5, b6]
+
+theorem view_eq_of_includeExcept (a b : Bytes) (p : Bytes × Bytes × Bytes) (ha : includeExcept? a = some p) (hb : includeExcept? b = some p) :
+    view a = view b ∧ (view a).isText = false := by
+  obtain ⟨ta, rfl⟩ := includeExcept?_hash a p ha
+  obtain ⟨tb, rfl⟩ := includeExcept?_hash b p hb
+  obtain ⟨a1, a2, a3, a4, a5, a6⟩ := only_includeExcept _ p ha
+  obtain ⟨b1, b2, b3, b4, b5, b6⟩ := only_includeExcept _ p hb
+  simp [view, View.isText, isBlank_hash, ha, hb, a1, a2, a3, a4, a5, a6, b1, b2, b3, b4, b5, b6]
+
+theorem view_eq_of_flags (a b : Bytes) (p : Bytes) (ha : flags? a = some p) (hb : flags? b = some p) :
+    view a = view b ∧ (view a).isText = false := by
+  obtain ⟨ta, rfl⟩ := valueLine?_hash '+' a p ha
+  obtain ⟨tb, rfl⟩ := valueLine?_hash '+' b p hb
+  obtain ⟨a1, a2, a3, a4, a5, a6⟩ := only_flags _ p ha
+  obtain ⟨b1, b2, b3, b4, b5, b6⟩ := only_flags _ p hb
+  simp [view, View.isText, isBlank_hash, ha, hb, a1, a2, a3, a4, a5, a6, b1, b2, b3, b4, b5, b6]
+
+theorem view_eq_of_prefix (a b : Bytes) (p : Bytes) (ha : prefix? a = some p) (hb : prefix? b = some p) :
+    view a = view b ∧ (view a).isText = false := by
+  obtain ⟨ta, rfl⟩ := valueLine?_hash '^' a p ha
+  obtain ⟨tb, rfl⟩ := valueLine?_hash '^' b p hb
+  obtain ⟨a1, a2, a3, a4, a5, a6⟩ := only_prefix _ p ha
+  obtain ⟨b1, b2, b3, b4, b5, b6⟩ := only_prefix _ p hb
+  simp [view, View.isText, isBlank_hash, ha, hb, a1, a2, a3, a4, a5, a6, b1, b2, b3, b4, b5, b6]
+
+theorem view_eq_of_suffix (a b : Bytes) (p : Bytes) (ha : suffix? a = some p) (hb : suffix? b = some p) :
+    view a = view b ∧ (view a).isText = false := by
+  obtain ⟨ta, rfl⟩ := valueLine?_hash '$' a p ha
+  obtain ⟨tb, rfl⟩ := valueLine?_hash '$' b p hb
+  obtain ⟨a1, a2, a3, a4, a5, a6⟩ := only_suffix _ p ha
+  obtain ⟨b1, b2, b3, b4, b5, b6⟩ := only_suffix _ p hb
+  simp [view, View.isText, isBlank_hash, ha, hb, a1, a2, a3, a4, a5, a6, b1, b2, b3, b4, b5, b6]
+
+/-- **C10 (same directive, same arguments).** For every line that is not a block start and every indentation
+    level: every recogniser the parser consults answers on the formatted line (indentation stripped, as the
+    parser does) exactly as on the original one, and when none fires the text is identical. -/
+theorem C10_view_preserved (l : Bytes) (i : Nat) (l' : Bytes) (k : Nat)
+    (hl : trimLeftSpTab l = l) (hbs : blockStart? l = none) (h : processLine l i = some (l', k)) :
+    view (trimLeftSpTab l') = view l ∧ ((view l).isText = true → trimLeftSpTab l' = l) := by
+  have hhead : ∀ c, l.head? = some c → isSpTab c = false := by rw [← hl]; exact trimLeftSpTab_head l
+  have same : ∀ j, trimLeftSpTab (indentBy j l) = l := fun j => trimLeftSpTab_indentBy j l hhead
+  by_cases he : l.isEmpty = true
+  · have hp : processLine l i = some (l, i) := by unfold processLine; simp only [hl, he, if_true]
+    rw [hp] at h
+    simp only [Option.some.injEq, Prod.mk.injEq] at h
+    obtain ⟨rfl, rfl⟩ := h
+    rw [hl]; exact ⟨rfl, fun _ => rfl⟩
+  have he' : l.isEmpty = false := by simpa using he
+  by_cases hbe : blockEnd? l = true
+  · have hp : processLine l i = (if i == 0 then none else some (indentBy (i - 1) l, i - 1)) := by
+      unfold processLine; simp only [hl, he', hbs, hbe, Bool.false_eq_true, if_false, if_true]
+    rw [hp] at h
+    split at h
+    · simp at h
+    · simp only [Option.some.injEq, Prod.mk.injEq] at h
+      obtain ⟨rfl, rfl⟩ := h
+      rw [same]; exact ⟨rfl, fun _ => rfl⟩
+  have hbe' : blockEnd? l = false := by simpa using hbe
+  cases hfl : flags? l with
+  | some v =>
+    obtain ⟨ht, hne⟩ := valueLine?_shape '+' l v hfl
+    have hp : processLine l i = some (emitValue '+' v, i) := by
+      unfold processLine; simp only [hl, he', hbs, hbe', hfl, Bool.false_eq_true, if_false]; rfl
+    rw [hp] at h
+    simp only [Option.some.injEq, Prod.mk.injEq] at h
+    obtain ⟨rfl, rfl⟩ := h
+    have e : trimLeftSpTab (emitValue '+' v) = emitValue '+' v := trimLeftSpTab_of_head _ (by intro c hc; simp [emitValue_eq] at hc; subst hc; rfl)
+    rw [e]
+    obtain ⟨q1, q2⟩ := view_eq_of_flags (emitValue '+' v) l v (valueLine?_emit '+' v ht hne) hfl
+    exact ⟨q1, fun hx => by rw [← q1, q2] at hx; exact absurd hx (by simp)⟩
+  | none =>
+  cases hpf : prefix? l with
+  | some v =>
+    obtain ⟨ht, hne⟩ := valueLine?_shape '^' l v hpf
+    have hp : processLine l i = some (emitValue '^' v, i) := by
+      unfold processLine; simp only [hl, he', hbs, hbe', hfl, hpf, Bool.false_eq_true, if_false]; rfl
+    rw [hp] at h
+    simp only [Option.some.injEq, Prod.mk.injEq] at h
+    obtain ⟨rfl, rfl⟩ := h
+    have e : trimLeftSpTab (emitValue '^' v) = emitValue '^' v := trimLeftSpTab_of_head _ (by intro c hc; simp [emitValue_eq] at hc; subst hc; rfl)
+    rw [e]
+    obtain ⟨q1, q2⟩ := view_eq_of_prefix (emitValue '^' v) l v (valueLine?_emit '^' v ht hne) hpf
+    exact ⟨q1, fun hx => by rw [← q1, q2] at hx; exact absurd hx (by simp)⟩
+  | none =>
+  cases hsf : suffix? l with
+  | some v =>
+    obtain ⟨ht, hne⟩ := valueLine?_shape '$' l v hsf
+    have hp : processLine l i = some (emitValue '$' v, i) := by
+      unfold processLine; simp only [hl, he', hbs, hbe', hfl, hpf, hsf, Bool.false_eq_true, if_false]; rfl
+    rw [hp] at h
+    simp only [Option.some.injEq, Prod.mk.injEq] at h
+    obtain ⟨rfl, rfl⟩ := h
+    have e : trimLeftSpTab (emitValue '$' v) = emitValue '$' v := trimLeftSpTab_of_head _ (by intro c hc; simp [emitValue_eq] at hc; subst hc; rfl)
+    rw [e]
+    obtain ⟨q1, q2⟩ := view_eq_of_suffix (emitValue '$' v) l v (valueLine?_emit '$' v ht hne) hsf
+    exact ⟨q1, fun hx => by rw [← q1, q2] at hx; exact absurd hx (by simp)⟩
+  | none =>
+  cases hdf : definition? l with
+  | some p =>
+    obtain ⟨n, v⟩ := p
+    obtain ⟨a1, a2, a3, a4⟩ := definition?_shape l n v hdf
+    have hp : processLine l i = some (indentBy i (emitDefine n v), i) := by
+      unfold processLine; simp only [hl, he', hbs, hbe', hfl, hpf, hsf, hdf, Bool.false_eq_true, if_false]; rfl
+    rw [hp] at h
+    simp only [Option.some.injEq, Prod.mk.injEq] at h
+    obtain ⟨rfl, rfl⟩ := h
+    have e : trimLeftSpTab (indentBy i (emitDefine n v)) = emitDefine n v :=
+      trimLeftSpTab_indentBy i _ (by intro c hc; simp [emitDefine] at hc; subst hc; rfl)
+    rw [e]
+    obtain ⟨q1, q2⟩ := view_eq_of_definition (emitDefine n v) l (n, v) (definition?_emit n v a1 a2 a3 a4) hdf
+    exact ⟨q1, fun hx => by rw [← q1, q2] at hx; exact absurd hx (by simp)⟩
+  | none =>
+  cases hin : include? l with
+  | some p =>
+    obtain ⟨n, r⟩ := p
+    obtain ⟨a1, a2, a3⟩ := include?_shape l n r hin
+    have hp : processLine l i = some (indentBy i (emitInclude n r), i) := by
+      unfold processLine; simp only [hl, he', hbs, hbe', hfl, hpf, hsf, hdf, hin, Bool.false_eq_true, if_false]; rfl
+    rw [hp] at h
+    simp only [Option.some.injEq, Prod.mk.injEq] at h
+    obtain ⟨rfl, rfl⟩ := h
+    have e : trimLeftSpTab (indentBy i (emitInclude n r)) = emitInclude n r :=
+      trimLeftSpTab_indentBy i _ (by intro c hc; simp [emitInclude] at hc; subst hc; rfl)
+    rw [e]
+    obtain ⟨q1, q2⟩ := view_eq_of_include (emitInclude n r) l (n, r) (include?_emit n r a1 a2 a3) hin
+    exact ⟨q1, fun hx => by rw [← q1, q2] at hx; exact absurd hx (by simp)⟩
+  | none =>
+  cases hix : includeExcept? l with
+  | some p =>
+    obtain ⟨n, x, r⟩ := p
+    obtain ⟨a1, a2, a3, a4, a5⟩ := includeExcept?_shape l n x r hix
+    have hp : processLine l i = some (indentBy i (emitIE n x r), i) := by
+      unfold processLine; simp only [hl, he', hbs, hbe', hfl, hpf, hsf, hdf, hin, hix, Bool.false_eq_true, if_false]; rfl
+    rw [hp] at h
+    simp only [Option.some.injEq, Prod.mk.injEq] at h
+    obtain ⟨rfl, rfl⟩ := h
+    have e : trimLeftSpTab (indentBy i (emitIE n x r)) = emitIE n x r :=
+      trimLeftSpTab_indentBy i _ (by intro c hc; simp [emitIE] at hc; subst hc; rfl)
+    rw [e]
+    obtain ⟨q1, q2⟩ := view_eq_of_includeExcept (emitIE n x r) l (n, x, r) (includeExcept?_emit n x r a1 a2 a3 a4 a5) hix
+    exact ⟨q1, fun hx => by rw [← q1, q2] at hx; exact absurd hx (by simp)⟩
+  | none =>
+    have hp : processLine l i = some (indentBy i l, i) := by
+      unfold processLine; simp only [hl, he', hbs, hbe', hfl, hpf, hsf, hdf, hin, hix, Bool.false_eq_true, if_false]
+    rw [hp] at h
+    simp only [Option.some.injEq, Prod.mk.injEq] at h
+    obtain ⟨rfl, rfl⟩ := h
+    rw [same]; exact ⟨rfl, fun _ => rfl⟩
+
+/-- **C10 (the compiler's step is unchanged).** Replacing a line by its formatted version changes nothing for the
+    parser: same state afterwards, same error if any — for every parser state, include tree and continuation. -/
+theorem C10_parser_step_same (fs : Fs) (o1 o2 : Ord) (fuel : Nat) (st : PState) (l : Bytes) (i : Nat) (l' : Bytes) (k : Nat)
+    (rest : List Bytes) (hl : trimLeftSpTab l = l) (hbs : blockStart? l = none) (h : processLine l i = some (l', k)) :
+    parseLines fs o1 o2 fuel st (l' :: rest) = parseLines fs o1 o2 fuel st (l :: rest) := by
+  obtain ⟨q1, q2⟩ := C10_view_preserved l i l' k hl hbs h
+  apply parseLines_congr
+  · rw [hl]; exact q1
+  · rw [hl, q1]; exact q2
+
+/-! ### block start lines -/
+
+theorem takeWhile_append_noP {α} (p : α → Bool) (a w : List α) (hw : ∀ c ∈ w, p c = false) :
+    (a ++ w).takeWhile p = a.takeWhile p := by
+  induction a with
+  | nil =>
+    cases w with
+    | nil => rfl
+    | cons c cs => simp [List.takeWhile, hw c (by simp)]
+  | cons x xs ih =>
+    by_cases hx : p x = true
+    · simp [List.takeWhile, hx, ih]
+    · simp [List.takeWhile, hx]
+
+theorem trimRightWs_split (x : Bytes) : ∃ w, x = trimRightWs x ++ w ∧ ∀ c ∈ w, isWs c = true := by
+  refine ⟨(x.reverse.takeWhile isWs).reverse, ?_, ?_⟩
+  · unfold trimRightWs
+    rw [← List.reverse_append, List.takeWhile_append_dropWhile, List.reverse_reverse]
+  · intro c hc
+    rw [List.mem_reverse] at hc
+    exact mem_takeWhile_imp' _ _ c hc
+
+theorem lower_not_ws (c : Char) (h : isWs c = true) : isLower c = false := by
+  simp only [isWs, Bool.or_eq_true, beq_iff_eq] at h
+  rcases h with (((rfl | rfl) | rfl) | rfl) | rfl <;> decide
+
+theorem takeWhile_lower_trimRight (x : Bytes) : (trimRightWs x).takeWhile isLower = x.takeWhile isLower := by
+  obtain ⟨w, hw, hall⟩ := trimRightWs_split x
+  conv => rhs; rw [hw]
+  exact (takeWhile_append_noP isLower _ w (fun c hc => lower_not_ws c (hall c hc))).symm
+
+/-- what the assembler reads in a block start line: processor name and first lower-case word of the argument -/
+theorem processorStart?_of_blockStart (l kw arg : Bytes) (h : blockStart? l = some (kw, arg)) :
+    processorStart? l = some (kw, arg.takeWhile isLower) := by
+  unfold blockStart? at h
+  split at h
+  · simp at h
+  · rename_i r hr
+    simp only at h
+    have key : ∀ k : Bytes, (∀ c ∈ k, isLower c = true) → k ≠ [] →
+        (match stripPrefix? k (dropWs r) with
+          | none => none
+          | some rest => match rest with
+            | [] => some (k, [])
+            | c :: _ => if isWs c then some (k, trimWs rest) else none) = some (kw, arg) →
+        processorStart? l = some (kw, arg.takeWhile isLower) := by
+      intro k hk hkne hm
+      split at hm
+      · simp at hm
+      · rename_i rest hrest
+        have hd : dropWs r = k ++ rest := (stripPrefix?_some_iff _ _ _).mp hrest
+        unfold processorStart?
+        rw [hr]
+        simp only [hd]
+        split at hm
+        · -- nothing after the keyword
+          simp only [Option.some.injEq, Prod.mk.injEq] at hm
+          obtain ⟨rfl, rfl⟩ := hm
+          obtain ⟨t1, t2⟩ := takeWhile_all isLower k hk
+          simp only [List.append_nil, t1, t2]
+          have : k.isEmpty = false := by cases k with | nil => exact absurd rfl hkne | cons _ _ => rfl
+          simp [this]
+        · rename_i c cs
+          split at hm
+          · rename_i hws
+            simp only [Option.some.injEq, Prod.mk.injEq] at hm
+            obtain ⟨rfl, rfl⟩ := hm
+            obtain ⟨t1, t2⟩ := takeWhile_append_stop isLower k c cs hk (lower_not_ws c hws)
+            simp only [t1, t2]
+            have : k.isEmpty = false := by cases k with | nil => exact absurd rfl hkne | cons _ _ => rfl
+            simp only [this, Bool.false_eq_true, if_false, hws, if_true]
+            unfold trimWs
+            rw [takeWhile_lower_trimRight]
+          · simp at hm
+    split at h
+    · rename_i x hx
+      simp only [Option.some.injEq] at h
+      subst h
+      exact key b!"assemble" (by decide) (by decide) hx
+    · exact key b!"cmdline" (by decide) (by decide) h
+
+theorem notDirective_of_blockStart (l kw arg : Bytes) (h : blockStart? l = some (kw, arg)) :
+    (view l).isText = true := by
+  -- a block start line begins with `##!>` and its keyword is neither define nor include…: no parser recogniser fires
+  have hps := processorStart?_of_blockStart l kw arg h
+  obtain ⟨hkw, _⟩ := blockStart?_shape l kw arg h
+  unfold blockStart? at h
+  split at h
+  · simp at h
+  · rename_i r hr
+    have hl : l = b!"##!>" ++ r := (stripPrefix?_some_iff _ _ _).mp hr
+    have hkey : ∃ rest, dropWs r = kw ++ rest := by
+      simp only at h
+      split at h
+      · rename_i x hx
+        simp only [Option.some.injEq] at h; subst h
+        split at hx
+        · simp at hx
+        · rename_i rest hrest
+          have := (stripPrefix?_some_iff _ _ _).mp hrest
+          split at hx
+          · simp only [Option.some.injEq, Prod.mk.injEq] at hx; obtain ⟨rfl, _⟩ := hx; exact ⟨_, this⟩
+          · split at hx
+            · simp only [Option.some.injEq, Prod.mk.injEq] at hx; obtain ⟨rfl, _⟩ := hx; exact ⟨_, this⟩
+            · simp at hx
+      · split at h
+        · simp at h
+        · rename_i rest hrest
+          have := (stripPrefix?_some_iff _ _ _).mp hrest
+          split at h
+          · simp only [Option.some.injEq, Prod.mk.injEq] at h; obtain ⟨rfl, _⟩ := h; exact ⟨_, this⟩
+          · split at h
+            · simp only [Option.some.injEq, Prod.mk.injEq] at h; obtain ⟨rfl, _⟩ := h; exact ⟨_, this⟩
+            · simp at h
+    obtain ⟨rest, hrest⟩ := hkey
+    have hdef : definition? l = none := by
+      unfold definition?; rw [hr]; simp only [hrest]
+      rcases hkw with rfl | rfl <;> simp [stripPrefix?]
+    have hinc : include? l = none := by
+      unfold include?; rw [hr]; simp only [hrest]
+      rcases hkw with rfl | rfl <;> simp [stripPrefix?]
+    have hix : includeExcept? l = none := by
+      unfold includeExcept?; rw [hr]; simp only [hrest]
+      rcases hkw with rfl | rfl <;> simp [stripPrefix?]
+    have hl' : l = '#' :: '#' :: '!' :: '>' :: r := hl
+    obtain ⟨f1, f2, f3⟩ := valueLines_none_start r
+    rw [← hl'] at f1 f2 f3
+    have hcm : comment? l = false := by rw [hl']; simp [comment?, marker, stripPrefix?, dropWs, List.dropWhile, isWs]
+    have hbl : isBlank l = false := by rw [hl']; exact isBlank_hash _
+    simp [view, View.isText, hdef, hinc, hix, f1, f2, f3, hcm, hbl]
+
+/-- **C10 (block start lines).** A formatted block start line is still handed to the assembler as text, and the
+    assembler reads the same processor name and the same argument word in it. -/
+theorem C10_block_start_same (l : Bytes) (i : Nat) (l' : Bytes) (k : Nat) (kw arg : Bytes)
+    (hl : trimLeftSpTab l = l) (hbs : blockStart? l = some (kw, arg)) (h : processLine l i = some (l', k)) :
+    (view l).isText = true ∧ (view (trimLeftSpTab l')).isText = true ∧
+    processorStart? (trimLeftSpTab l') = processorStart? l ∧ k = i + 1 := by
+  obtain ⟨hkw, harg⟩ := blockStart?_shape l kw arg hbs
+  have he' : l.isEmpty = false := by
+    cases l with
+    | nil => simp [blockStart?, stripPrefix?, startMarker] at hbs
+    | cons _ _ => rfl
+  have hp : processLine l i = some (indentBy i (emitStart kw arg), i + 1) := by
+    unfold processLine; simp only [hl, he', hbs, Bool.false_eq_true, if_false]; rfl
+  rw [hp] at h
+  simp only [Option.some.injEq, Prod.mk.injEq] at h
+  obtain ⟨rfl, rfl⟩ := h
+  have e : trimLeftSpTab (indentBy i (emitStart kw arg)) = emitStart kw arg :=
+    trimLeftSpTab_indentBy i _ (by intro c hc; simp [emitStart] at hc; subst hc; rfl)
+  rw [e]
+  have hbs' := blockStart?_emit kw arg hkw harg
+  exact ⟨notDirective_of_blockStart l kw arg hbs, notDirective_of_blockStart _ kw arg hbs',
+    by rw [processorStart?_of_blockStart _ kw arg hbs', processorStart?_of_blockStart l kw arg hbs], rfl⟩
+
+/-! ### line by line: nothing dropped, duplicated or reordered -/
+
+/-- two lists related element by element, in order (same length) -/
+inductive Pointwise {α β} (R : α → β → Prop) : List α → List β → Prop where
+  | nil : Pointwise R [] []
+  | cons {a b as bs} : R a b → Pointwise R as bs → Pointwise R (a :: as) (b :: bs)
+
+theorem Pointwise.length_eq {α β} {R : α → β → Prop} {as : List α} {bs : List β} (h : Pointwise R as bs) : as.length = bs.length := by
+  induction h with
+  | nil => rfl
+  | cons _ _ ih => simp [ih]
+
+/-- **C10 (pointwise).** The formatted lines are the original lines, one for one and in order, each the result of
+    the line function at some indentation level. -/
+theorem C10_lines_pointwise (ls : List Bytes) (i : Nat) (ls' : List Bytes) (h : formatLines ls i = some ls') :
+    Pointwise (fun l l' => ∃ j k, processLine l j = some (l', k)) ls ls' := by
+  induction ls generalizing i ls' with
+  | nil =>
+    simp only [formatLines, Option.some.injEq] at h
+    subst h; exact Pointwise.nil
+  | cons l ls ih =>
+    obtain ⟨l', k, rest, hp, hr, rfl⟩ := formatLines_cons_inv l ls i ls' h
+    exact Pointwise.cons ⟨i, k, hp⟩ (ih k rest hr)
+
+/-- **C10 (file).** A successful format writes: the header, an empty line, and the formatted lines of the file
+    (without the header when it was there already) up to trailing empty lines — `body ++ k empty lines` is pointwise
+    the parsed lines of the input. -/
+theorem C10_file_lines (b out : Bytes) (h : formatFile b = .ok out) :
+    ∃ (ls body : List Bytes) (k : Nat),
+      formatLines (parsedLines b) 0 = some ls ∧
+      Pointwise (fun l l' => ∃ j k, processLine l j = some (l', k)) (parsedLines b) ls ∧
+      (ls = body ++ List.replicate k [] ∨ ls = header1 :: header2 :: [] :: (body ++ List.replicate k []) ∨ (ls = [header1, header2] ∧ body = [])) ∧
+      out = unlines (header1 :: header2 :: [] :: body) := by
+  unfold formatFile at h
+  split at h
+  · simp at h
+  split at h
+  · simp at h
+  rename_i ls hfl
+  simp only [Except.ok.injEq] at h
+  have hpw := C10_lines_pointwise _ _ _ hfl
+  by_cases hh : hasHeader ls = true
+  · simp only [hh, if_true] at h
+    obtain ⟨k, hk⟩ := trimTrailingEmpty_prefix (ls.drop 3)
+    rcases hasHeader_drop ls hh with ⟨e1, e2⟩ | e
+    · refine ⟨ls, [], 0, hfl, hpw, Or.inr (Or.inr ⟨e1, rfl⟩), ?_⟩
+      rw [← h, e2]; rfl
+    · refine ⟨ls, trimTrailingEmpty (ls.drop 3), k, hfl, hpw, Or.inr (Or.inl ?_), h.symm⟩
+      rw [← hk]; exact e
+  · simp only [hh, Bool.false_eq_true, if_false] at h
+    obtain ⟨k, hk⟩ := trimTrailingEmpty_prefix ls
+    exact ⟨ls, trimTrailingEmpty ls, k, hfl, hpw, Or.inl hk, h.symm⟩
+
+/-! ### known finding D23 and non-vacuity -/
+
+/-- D23 as a fact of the model: a dangling `--` (nothing after it) on an include line is not written back.
+    White space is not the only thing that changes on such a line; the compiled regex is unaffected
+    (`C10_parser_step_same` covers the line: the parser reads the same directive with the same, empty, replacement list). -/
+theorem C10_dangling_dashes_dropped_D23 :
+    processLine "##!> include foo --".toList 0 = some ("##!> include foo".toList, 0) := by decide +kernel
+
+/-- non-vacuity: a line with unusual spacing is a fixed directive for the parser before and after -/
+example : processLine "##!>   include   foo--a   b  ".toList 1 = some ("  ##!> include foo -- a   b".toList, 1)
+    ∧ include? "##!>   include   foo--a   b  ".toList = some ("foo".toList, "a   b".toList) := by decide +kernel
+
 end Crs.Props
